@@ -377,7 +377,8 @@ macro_rules! float_cases {
             // ---- Zipf<F>
             let ns: &[f64] = if IS32 { &[1.0, 2.0, 10.0, 1000.0, 1e6] } else { &[1.0, 2.0, 10.0, 1000.0, 1e6, 1e15] };
             for &n in ns {
-                for &s in &[0.0, 0.5, 1.0, 1.5, 2.0, 5.0, INF] {
+                // (0.998 and 1.002: both sides of the s = 1 switch at a small distance)
+                for &s in &[0.0, 0.5, 0.998, 1.0, 1.002, 1.5, 2.0, 5.0, INF] {
                     let (nr, sr) = (R(n), R(s));
                     let chk = move |x: F| { let x = x as f64; if x.is_nan() { Some("NaN") } else if x < 1.0 { Some("below 1") } else if x > nr { Some("above n") } else if x.fract() != 0.0 { Some("not an integer") } else { None } };
                     r.add("Zipf", N, &[("n", n), ("s", s)], move || Zipf::<F>::new(n as F, s as F).ok(), chk, disc(move |k| zipf_cdf(k, nr, sr), 1.0, nr), true);
